@@ -127,6 +127,14 @@ def run(ctx):
               'a context operation can complete without the client being answered: the client blocks in recv_msg', where=loc(f, f.node), path=path_str(p or []))
     rinit = [st for st in walk_local(f.node) if isinstance(st, ast.Assign) and is_name(st.targets[0], RES) and isinstance(st.value, ast.Constant) and st.value.value is True]
     ctx.check('R1', 'the reply defaults to True', bool(rinit), 'RemoteServer.run', 'reply-default', 'the reply of a context operation has no default', where=loc(f, f.node))
+    # ... and it is a per-request default: on every path from the head of the accept loop to the reply, the reply variable is assigned in that iteration
+    res_stores = {n.id for n in g.nodes if n.stmt is not None and n.part in (None, 'store') and isinstance(n.stmt, ast.Assign) and any(is_name(t, RES) for t in n.stmt.targets)}
+    reply_nodes = [n for n in g.nodes if n.id in reply]
+    p2 = g.find_path(heads, lambda n: n.id in reply, edge_ok=lambda e: is_flow(e) and e.kind != 'exc', node_ok=lambda n: n.id not in res_stores) if heads and reply_nodes else []
+    ctx.check('R1', 'the reply of a context operation is decided within the request that is answered', p2 is None and bool(reply_nodes), 'RemoteServer.run', 'reply-carried-over',
+              'the reply variable is not (re)assigned in every iteration of the accept loop before it is sent: once one request has been answered False (a refused duplicate), every later '
+              'context operation is answered False as well although the server carries it out - a created context nobody holds a handle for, a deleted one reported alive',
+              where=loc(f, rinit[0]) if rinit else loc(f, f.node), path=path_str(p2 or []))
 
     # ---------------------------------------------------------------- R3 delete chain
     dele = [st for st in walk_local(f.node) if isinstance(st, ast.If) and canon(st.test)[0] == f'{PAY} is None']
